@@ -40,6 +40,8 @@ def plan(tier, seed):
         specs.append({"kind": "history", "env": {"TZ": tz}, "tz": tz, "rounds": 2 if q else 12})
     for T in ([4] if q else [2, 4, 8, 16]):
         specs.append({"kind": "threads", "threads": T, "count": 300 if q else 4000, "env": {"TZ": "Asia/Tokyo"}, "tz": "Asia/Tokyo"})
+    for tz in (["UTC", "America/Los_Angeles"] if q else TZS + ["Asia/Tokyo"]):
+        specs.append({"kind": "virtual_clock", "env": {"TZ": tz}, "tz": tz, "random_instants": 40 if q else 1500})
     return specs
 
 
@@ -344,9 +346,88 @@ def run_threads(spec, rec, lib):
             check_result(kind, None, kwc, out, rec, lib, tz, t0, t1)
 
 
+INSTANTS = [
+    # (instant, why) - readings a real clock offers about once in a million / once a year / once in four years
+    ("2026-10-03T12:34:56.000000", "exactly on a whole second"),
+    ("2026-10-03T12:34:56.999999", "one microsecond before the next second"),
+    ("2026-10-03T12:34:56.500000", "half a second"),
+    ("2026-10-03T12:34:56.000001", "one microsecond after a whole second"),
+    ("2026-10-03T00:00:00.000000", "midnight exactly"),
+    ("2026-10-03T10:00:00.000000", "whole hour (trailing zeros)"),
+    ("2026-10-10T10:10:10.100000", "tenths"),
+    ("2026-12-31T23:59:59.999999", "one microsecond before the year ends"),
+    ("2027-01-01T00:00:00.000000", "the year begins"),
+    ("2028-02-29T12:00:00.000000", "leap day"),
+    ("2027-02-28T23:59:59.999999", "before a leap year's February"),
+    ("2027-03-01T00:00:00.000000", "the year ahead contains a leap day"),
+    ("1999-12-31T23:59:59.000000", "century boundary"),
+    ("2038-01-19T03:14:07.000000", "2^31 - 1 seconds"),
+    ("2038-01-19T03:14:08.000000", "2^31 seconds"),
+    ("2001-09-09T01:46:40.000000", "10^9 seconds"),
+    ("2026-03-08T09:59:59.999999", "just before a US daylight-saving switch (UTC)"),
+    ("2026-11-01T09:00:00.000000", "US daylight-saving ends (UTC)"),
+    ("1970-01-02T00:00:00.000000", "one day after the epoch"),
+    ("2106-02-07T06:28:15.000000", "2^32 - 1 seconds"),
+    ("9000-01-01T00:00:00.000000", "far future"),
+]
+
+
+def run_virtual_clock(spec, rec, lib):
+    """default times under a virtual clock put on chosen instants: the default timestamp is that instant (to the second),
+    well-formed, and the default expiry about a year after it"""
+    from ..monitors import vclock
+
+    rng = random.Random(spec["seed"])
+    tz = spec["tz"]
+    M = lib.metadata_construction
+    instants = [(datetime.datetime.strptime(t, "%Y-%m-%dT%H:%M:%S.%f").replace(tzinfo=datetime.timezone.utc), why) for t, why in INSTANTS]
+    for _ in range(spec.get("random_instants", 40)):
+        base = datetime.datetime(rng.randint(1971, 2200), rng.randint(1, 12), rng.randint(1, 28), rng.randrange(24), rng.randrange(60), rng.randrange(60),
+                                 rng.choice([0, 0, 0, 1, 999999, 500000, rng.randrange(10**6), rng.randrange(10) * 100000, rng.randrange(1000) * 1000]),
+                                 tzinfo=datetime.timezone.utc)
+        instants.append((base, "random"))
+    total_reads = 0
+    for instant, why in instants:
+        for kind in ("delegating", "root"):
+            kwc = valid_kwargs(kind, rng)
+            drop = rng.choice(["both", "both", "timestamp", "expiration"])
+            for k in ("timestamp", "root_timestamp"):
+                if drop in ("both", "timestamp"):
+                    kwc.pop(k, None)
+            for k in ("expiration", "root_expiration"):
+                if drop in ("both", "expiration"):
+                    kwc.pop(k, None)
+            fn = M.build_delegating_metadata if kind == "delegating" else M.build_root_metadata
+            kw = caselang.dec(kwc, lib)
+            with vclock.frozen(lib, instant) as clock:
+                out = boundary.call(lib, fn, **kw)
+            total_reads += clock.reads
+            case = {"kind": "vclock", "builder": kind, "kwargs": kwc, "tz": tz, "instant": instant.strftime("%Y-%m-%dT%H:%M:%S.%f")}
+            rec.case("vclock|%s|%s|%s" % (kind, case["instant"], drop))
+            rec.hist("virtual_clock_instants", why)
+            if clock.reads == 0:
+                rec.count("virtual_clock_not_consulted")
+                continue
+            rec.count("virtual_clock_builds")
+            if not out.accepted:
+                # valid arguments: the clock reading must not make the builder fail (OverflowError near year 9999 excepted)
+                if instant.year < 9000:
+                    rec.violation(boundary.mechanism("virtual-clock", "build_%s_metadata" % kind, "return", out),
+                                  "builder given valid arguments raised %s when the clock read %s (%s): %s" % (out.cls, case["instant"], why, (out.msg or "")[:100]), case)
+                continue
+            floor = instant.replace(microsecond=0)
+            check_result(kind, None, kwc, out, rec, lib, tz, floor, floor + datetime.timedelta(seconds=1))
+    rec.count("virtual_clock_reads", total_reads)
+    if total_reads == 0:
+        rec.inconclusive_because("the library never consulted the virtual clock (it reads time through a name the stand-in does not cover)")
+    rec.sample({"virtual_clock": "%d instants x 2 builders; e.g. %s" % (len(instants), INSTANTS[0][0])})
+
+
 def run_shard(spec, rec, lib):
     if spec["kind"] == "threads":
         return run_threads(spec, rec, lib)
+    if spec["kind"] == "virtual_clock":
+        return run_virtual_clock(spec, rec, lib)
     {"tuples": run_tuples, "corrupt": run_corrupt, "history": run_history}[spec["kind"]](spec, rec, lib)
 
 
@@ -357,7 +438,20 @@ def finish(merged, tier, seed):
 
 
 def replay(case, rec, lib):
-    if case.get("kind") == "build":
+    if case.get("kind") == "vclock":
+        from ..monitors import vclock
+
+        M = lib.metadata_construction
+        kind = case["builder"]
+        instant = datetime.datetime.strptime(case["instant"], "%Y-%m-%dT%H:%M:%S.%f").replace(tzinfo=datetime.timezone.utc)
+        with vclock.frozen(lib, instant):
+            out = boundary.call(lib, M.build_delegating_metadata if kind == "delegating" else M.build_root_metadata, **caselang.dec(case["kwargs"], lib))
+        if out.accepted:
+            floor = instant.replace(microsecond=0)
+            check_result(kind, None, case["kwargs"], out, rec, lib, case.get("tz", "UTC"), floor, floor + datetime.timedelta(seconds=1))
+        else:
+            rec.violation(boundary.mechanism("virtual-clock", "build_%s_metadata" % kind, "return", out), "builder raised under the virtual clock", case)
+    elif case.get("kind") == "build":
         call_builder(case["builder"], case["kwargs"], rec, lib, case.get("tz", "UTC"), "replay")
     else:
         chain_check(random.Random(1), rec, lib, "UTC")
